@@ -196,7 +196,9 @@ def fold_pair(rng):
 def gen_seconds(rng):
     c = rng.random()
     if c < 0.35:
-        return rng.choice((0, 1, -1, 60, 3600, 86400, 10, 5, -3600, 2 ** 31))
+        return rng.choice((0, 1, -1, 60, 3600, 86400, 10, 5, -3600, 2 ** 31,
+                           86400 * 200, -86400 * 120,
+                           rng.randrange(-4 * 10 ** 7, 4 * 10 ** 7)))
     if c < 0.6:
         return rng.randrange(-10 ** 6, 10 ** 6)
     if c < 0.8:
@@ -209,7 +211,7 @@ def seconds_to_us(s):
 
 
 QUERY_OPS = ('utcnow', 'ts', 'ts_us', 'older', 'newer', 'soon',
-             'marshall_now0')
+             'marshall_now0', 'utcnow_tz')
 PURE_OPS = ('normalize', 'isoparse', 'marshall', 'leap')
 CLOCK_OPS = ('set', 'set_default', 'fixture_up', 'fixture_down', 'adv_delta',
              'adv_seconds', 'clear', 'fx_adv_delta', 'fx_adv_seconds')
@@ -248,7 +250,9 @@ class C12(Check):
               'override_active_query', 'unoverridden_query',
               'fixture_cleanup_clears', 'iso_string_argument',
               'named_zone_argument', 'leap_second_capped',
-              'same_wall_time_both_folds')
+              'same_wall_time_both_folds',
+              'margin_reaches_beyond_representable_range',
+              'override_in_named_zone')
 
     def setup(self):
         core.import_sut()
@@ -265,14 +269,24 @@ class C12(Check):
         while n < 40 and rng.random() < 0.9:
             n += 1
         ops = []
+        cur_zone = None
         for _ in range(n):
             kind = core.weighted(rng, [('clock', 3), ('query', 6),
                                        ('pure', 2)])
             if kind == 'clock':
                 op = rng.choice(CLOCK_OPS)
+                if op in ('set', 'fixture_up', 'set_default', 'clear',
+                          'fixture_down'):
+                    cur_zone = None
                 if op in ('set', 'fixture_up'):
                     o = [op, interesting_instant(rng)]
-                    if rng.random() < 0.12:
+                    if rng.random() < 0.05:
+                        # ... or in a named zone (advances are then only
+                        # made where wall-clock and exact arithmetic agree,
+                        # see _do)
+                        cur_zone = rng.choice(ZONES[1:])
+                        o.append(['zone', cur_zone])
+                    elif rng.random() < 0.12:
                         # the override instant handed over as an AWARE
                         # datetime (fixed offset or named zone)
                         # (fixed offsets only: with a named zone Python adds
@@ -300,8 +314,20 @@ class C12(Check):
                     delta = ('boundary', rng.choice((0, 0, 1, -1))) \
                         if b < 0.5 else ('free', rng.randrange(
                             -10 ** 10, 10 ** 10))
-                    ops.append([op, list(delta), s,
-                                gen_pres(rng, op != 'soon')])
+                    pres = gen_pres(rng, op != 'soon')
+                    if cur_zone and rng.random() < 0.6:
+                        # t in the override's own zone, typically on the
+                        # other side of a change of its UTC offset
+                        pres = ['zone', cur_zone]
+                        if rng.random() < 0.7:
+                            s = rng.choice((86400 * 200, -86400 * 120,
+                                            2 ** 31, rng.randrange(
+                                                -4 * 10 ** 7, 4 * 10 ** 7)))
+                            if rng.random() < 0.5:
+                                delta = ('boundary', rng.choice((
+                                    0, 1, -1, 3599 * 10 ** 6,
+                                    -3599 * 10 ** 6, 1800 * 10 ** 6)))
+                    ops.append([op, list(delta), s, pres])
                 else:
                     ops.append([op])
             else:
@@ -351,7 +377,8 @@ class C12(Check):
         dshim, tshim = make_shims(clock)
         stats = {'faults': {}, 'probes': {}, 'families': {}, 'sim': {},
                  'distinct': []}
-        pr = stats['probes']
+        pr = self._pr = stats['probes']
+        self.override_zone = None
 
         def bump(d, k, v=1):
             d[k] = d.get(k, 0) + v
@@ -418,6 +445,8 @@ class C12(Check):
                     bump(pr, 'override_active_query')
                     if self.aware_override:
                         bump(pr, 'override_is_aware_datetime')
+                    if self.override_zone:
+                        bump(pr, 'override_in_named_zone')
                     if reads:
                         # looking at the real clock is not observable: only
                         # the answer counts
@@ -480,15 +509,19 @@ class C12(Check):
         tu = self.tu
         name = op[0]
         if name == 'set':
+            self.override_zone = None
             if len(op) > 2:
                 tu.set_time_override(present(op[1], op[2]))
                 self.aware_override = True
+                if op[2][0] == 'zone':
+                    self.override_zone = op[2][1]
             else:
                 tu.set_time_override(from_us(op[1]))
                 self.aware_override = False
             return 'model', (op[1], fixture)
         if name == 'set_default':
             self.aware_override = False
+            self.override_zone = None
             mark = len(clock.log)
             tu.set_time_override()
             r = clock.log[mark:]
@@ -496,9 +529,12 @@ class C12(Check):
         if name == 'fixture_up':
             if fixture is not None:
                 fixture.cleanUp()
+            self.override_zone = None
             if len(op) > 2:
                 f = self.fx.TimeFixture(present(op[1], op[2]))
                 self.aware_override = True
+                if op[2][0] == 'zone':
+                    self.override_zone = op[2][1]
             else:
                 f = self.fx.TimeFixture(from_us(op[1]))
                 self.aware_override = False
@@ -531,6 +567,16 @@ class C12(Check):
             new = model + d_us
             if not (MIN_US <= new <= MAX_US):
                 return 'skip', None
+            if getattr(self, 'override_zone', None):
+                # an aware datetime in a named zone moves on the wall clock
+                # when a timedelta is added (Python's arithmetic, not the
+                # SUT's): only advances for which that IS the exact move
+                # are made
+                z = ['zone', self.override_zone]
+                wall = present(model, z) + _dt.timedelta(microseconds=d_us)
+                if wall.astimezone(UTC).replace(tzinfo=None) != \
+                        from_us(new):
+                    return 'skip', None
             fn(arg)
             return 'model', (new, fixture)
         # queries ---------------------------------------------------------
@@ -548,6 +594,21 @@ class C12(Check):
             return 'q', (got, lambda now: (
                 got == from_us(now) and got.tzinfo is None, from_us(now)),
                 {})
+        if name == 'utcnow_tz':
+            got = tu.utcnow(with_timezone=True)
+
+            def same_tz(now):
+                # whatever form comes back denotes the instant; a naive
+                # value reads as UTC
+                g = got
+                if g.tzinfo is not None:
+                    g = g.astimezone(UTC).replace(tzinfo=None)
+                ok = g == from_us(now)
+                if model is None:
+                    ok = ok and got.tzinfo is not None and \
+                        got.utcoffset() == _dt.timedelta(0)
+                return ok, from_us(now)
+            return 'q', (got, same_tz, {'pk': 'with_timezone'})
         if name == 'ts':
             got = tu.utcnow_ts()
             if model is None:
@@ -598,10 +659,16 @@ class C12(Check):
                     t_us = now_guess + s_us + dv
             else:
                 t_us = now_guess + dv
-            if not (MIN_US <= t_us <= MAX_US) or \
-                    not (MIN_US <= now_guess + s_us <= MAX_US) or \
-                    not (MIN_US <= now_guess - s_us <= MAX_US):
+            if not (MIN_US <= t_us <= MAX_US):
                 return 'skip', None
+            if name == 'soon' and not (MIN_US <= now_guess + s_us <= MAX_US):
+                # "now + w" is not a representable instant
+                return 'skip', None
+            if not (MIN_US <= now_guess + s_us <= MAX_US) or \
+                    not (MIN_US <= now_guess - s_us <= MAX_US):
+                self._pr['margin_reaches_beyond_representable_range'] = \
+                    self._pr.get(
+                        'margin_reaches_beyond_representable_range', 0) + 1
             arg = present(t_us, pres)
             if name == 'older':
                 got = tu.is_older_than(arg, s)
